@@ -4,6 +4,277 @@ From TR Require Import model.Concurrent.
 Import ListNotations.
 Open Scope Z_scope.
 
+(* ------------------------------------------------------------------------------------------ *)
+(* list facts *)
+
+Lemma upd_nth_length {A} : forall (l : list A) n v, length (upd_nth l n v) = length l.
+Proof. induction l as [|h t IH]; intros [|n] v; simpl; auto. Qed.
+
+Lemma nth_upd_same {A} : forall (l : list A) n v d,
+    (n < length l)%nat -> nth n (upd_nth l n v) d = v.
+Proof.
+  induction l as [|h t IH]; intros [|n] v d H; simpl in *; try lia; auto.
+  apply IH; lia.
+Qed.
+
+Lemma nth_upd_other {A} : forall (l : list A) n m v d,
+    n <> m -> nth m (upd_nth l n v) d = nth m l d.
+Proof.
+  induction l as [|h t IH]; intros [|n] [|m] v d H; simpl; auto; try congruence;
+    try (apply IH; congruence).
+Qed.
+
+Lemma firstn_upd_S : forall (l : list Z) p v,
+    (p < length l)%nat -> firstn p l = repeat v p ->
+    firstn (S p) (upd_nth l p v) = repeat v (S p).
+Proof.
+  induction l as [|h t IH]; intros p v Hl Hf.
+  - simpl in Hl; lia.
+  - destruct p as [|p].
+    + reflexivity.
+    + rewrite firstn_cons in Hf. change (repeat v (S p)) with (v :: repeat v p) in Hf.
+      injection Hf as Hh Ht.
+      change (upd_nth (h :: t) (S p) v) with (h :: upd_nth t p v). rewrite firstn_cons.
+      change (repeat v (S (S p))) with (v :: repeat v (S p)). subst h. f_equal.
+      apply IH; [simpl in Hl; lia | exact Ht].
+Qed.
+
+Lemma upd_last : forall (l : list Z) p v,
+    length l = S p -> firstn p l = repeat v p -> upd_nth l p v = repeat v (S p).
+Proof.
+  intros l p v Hl Hf.
+  rewrite <- (firstn_all (upd_nth l p v)). rewrite upd_nth_length, Hl.
+  apply firstn_upd_S; [lia | exact Hf].
+Qed.
+
+Lemma nth_repeat_lt {A} (v d : A) : forall n p, (p < n)%nat -> nth p (repeat v n) d = v.
+Proof. induction n; intros [|p] H; simpl; try lia; auto. apply IHn; lia. Qed.
+
+Lemma repeat_snoc {A} (v : A) n : repeat v n ++ [v] = repeat v (S n).
+Proof. induction n; simpl; auto. f_equal. exact IHn. Qed.
+
+(* ------------------------------------------------------------------------------------------ *)
+(* index arithmetic *)
+
+Definition pz (c n : Z) : Z := (c - 1 + n) mod n.
+
+Lemma prev_eq c n : 0 <= c < n -> (c - 1 + n) mod n = if c =? 0 then n - 1 else c - 1.
+Proof.
+  intros H. destruct (Z.eqb_spec c 0) as [e|e].
+  - subst c. rewrite Z.mod_small by lia. lia.
+  - replace (c - 1 + n) with (c - 1 + 1 * n) by lia. rewrite Z.mod_add by lia.
+    apply Z.mod_small. lia.
+Qed.
+
+Lemma next_eq c n : 0 <= c < n -> (c + 1) mod n = if c + 1 =? n then 0 else c + 1.
+Proof.
+  intros H. destruct (Z.eqb_spec (c + 1) n) as [e|e].
+  - rewrite e. apply Z_mod_same_full.
+  - apply Z.mod_small. lia.
+Qed.
+
+Lemma pz_range c n : 0 <= c < n -> 0 <= pz c n < n.
+Proof. intros H. unfold pz. rewrite prev_eq by lia. destruct (Z.eqb_spec c 0); lia. Qed.
+
+Lemma pz_neq c n : 2 <= n -> 0 <= c < n -> pz c n <> c.
+Proof. intros H2 H. unfold pz. rewrite prev_eq by lia. destruct (Z.eqb_spec c 0); lia. Qed.
+
+Lemma next_range c n : 0 <= c < n -> 0 <= (c + 1) mod n < n.
+Proof. intros H. rewrite next_eq by lia. destruct (Z.eqb_spec (c + 1) n); lia. Qed.
+
+Lemma pz_next c n : 0 <= c < n -> pz ((c + 1) mod n) n = c.
+Proof.
+  intros H. unfold pz. rewrite next_eq by lia.
+  destruct (Z.eqb_spec (c + 1) n); rewrite prev_eq by lia.
+  - rewrite Z.eqb_refl. lia.
+  - destruct (Z.eqb_spec (c + 1) 0); lia.
+Qed.
+
+(* ------------------------------------------------------------------------------------------ *)
+(* slots *)
+
+Definition sl (slots : list (list Z)) (i : Z) : list Z := nth (Z.to_nat i) slots [].
+
+Lemma sl_upd_same slots i l :
+  0 <= i -> (Z.to_nat i < length slots)%nat -> sl (upd_nth slots (Z.to_nat i) l) i = l.
+Proof. intros _ H. unfold sl. apply nth_upd_same; exact H. Qed.
+
+Lemma sl_upd_other slots i j l :
+  0 <= i -> 0 <= j -> i <> j -> sl (upd_nth slots (Z.to_nat i) l) j = sl slots j.
+Proof. intros Hi Hj Hn. unfold sl. apply nth_upd_other. lia. Qed.
+
+(* ------------------------------------------------------------------------------------------ *)
+(* the invariant *)
+
+Definition lholds (pc : loop_pc) : Prop :=
+  match pc with LAdvance | LUnlock => True | _ => False end.
+Definition rholds (pc : req_pc) : Prop :=
+  match pc with RCopy _ _ _ _ | RUnlock _ _ => True | _ => False end.
+
+Definition lock_ok (l : option tid) (lpc : loop_pc) (rpc : req_pc) : Prop :=
+  match l with
+  | None => ~ lholds lpc /\ ~ rholds rpc
+  | Some TLoop => lholds lpc /\ ~ rholds rpc
+  | Some TReq => ~ lholds lpc /\ rholds rpc
+  end.
+
+Definition ring_ok (size : Z) (npix : nat) (slots : list (list Z)) (cur done : Z)
+           (lpc : loop_pc) : Prop :=
+  match lpc with
+  | LWrite p => (p < npix)%nat /\ firstn p (sl slots cur) = repeat (done + 1) p /\
+                (1 <= done -> sl slots (pz cur size) = repeat done npix)
+  | LWantLock => sl slots cur = repeat (done + 1) npix /\
+                 (1 <= done -> sl slots (pz cur size) = repeat done npix)
+  | LAdvance => sl slots cur = repeat (done + 1) npix
+  | LUnlock => sl slots (pz cur size) = repeat (done + 1) npix
+  end.
+
+Definition req_ok (size : Z) (npix : nat) (cur done : Z) (rpc : req_pc) : Prop :=
+  match rpc with
+  | RIdle => True
+  | RWantLock a => a <= done
+  | RCopy a idx p acc => idx = pz cur size /\ a <= done /\ (p < npix)%nat /\
+                         (1 <= a -> acc = repeat done p)
+  | RUnlock a acc => a <= done /\ (1 <= a -> acc = repeat done npix)
+  | RDone a b r => a <= b /\ (1 <= a -> exists j, a <= j <= b /\ r = repeat j npix)
+  end.
+
+Definition Inv (size : Z) (npix : nat) (s : cstate) : Prop :=
+  cs_size s = size /\ cs_npix s = npix /\ 0 <= cs_cur s < size /\
+  length (cs_slots s) = Z.to_nat size /\
+  (forall i, 0 <= i < size -> length (sl (cs_slots s) i) = npix) /\
+  cs_frame s = cs_done s + 1 /\ 0 <= cs_done s /\
+  lock_ok (cs_lock s) (cs_lpc s) (cs_rpc s) /\
+  ring_ok size npix (cs_slots s) (cs_cur s) (cs_done s) (cs_lpc s) /\
+  req_ok size npix (cs_cur s) (cs_done s) (cs_rpc s).
+
+Ltac proj := cbn [cs_size cs_npix cs_slots cs_cur cs_lock cs_frame cs_done cs_lpc cs_rpc].
+Ltac proj_in H :=
+  unfold set_pixel, slot in H;
+  cbn [cs_size cs_npix cs_slots cs_cur cs_lock cs_frame cs_done cs_lpc cs_rpc] in H.
+
+Ltac inv_split :=
+  unfold Inv; proj;
+  split; [reflexivity|split; [reflexivity|split; [|split; [|split; [|split; [|split;
+    [|split; [|split]]]]]]]].
+
+Ltac lock_tac Ilock lock :=
+  revert Ilock; unfold lock_ok; destruct lock as [[|]|]; cbn [lholds rholds]; tauto.
+
+Lemma inv_init size npix : 2 <= size -> (1 <= npix)%nat -> Inv size npix (cs_init size npix).
+Proof.
+  intros Hsz Hnp. unfold cs_init. inv_split.
+  - lia.
+  - apply repeat_length.
+  - intros i Hi. unfold sl. rewrite nth_repeat_lt by lia. apply repeat_length.
+  - reflexivity.
+  - lia.
+  - unfold lock_ok, lholds, rholds. tauto.
+  - unfold ring_ok. split; [lia|]. split; [reflexivity|]. intros; lia.
+  - exact I.
+Qed.
+
+Lemma inv_step size npix s t s' :
+  2 <= size -> (1 <= npix)%nat -> Inv size npix s -> cstep s t = Some s' -> Inv size npix s'.
+Proof.
+  intros Hsz Hnp HI Hst.
+  destruct s as [sz np slots cur lock frame done lpc rpc].
+  unfold Inv in HI. proj_in HI.
+  destruct HI as (Isz & Inp & Icur & Ilen & Islen & Ifr & Idone & Ilock & Iring & Ireq).
+  subst sz np frame.
+  unfold cstep in Hst. proj_in Hst.
+  destruct t.
+  - (* the frame loop moves *)
+    destruct lpc as [p| | |].
+    + (* LWrite p *)
+      destruct Iring as (Hp & Hf & Hprev).
+      assert (Hcl : length (sl slots cur) = npix) by (apply Islen; lia).
+      pose proof (pz_range cur size Icur) as Hpr.
+      pose proof (pz_neq cur size Hsz Icur) as Hpn.
+      change (nth (Z.to_nat cur) slots []) with (sl slots cur) in Hst.
+      destruct (Nat.ltb_spec (S p) npix) as [Hlt|Hge];
+        injection Hst as <-; inv_split;
+        try assumption; try reflexivity;
+        try (rewrite upd_nth_length; assumption);
+        try (lock_tac Ilock lock).
+      * intros i Hi. destruct (Z.eq_dec i cur) as [->|Hne].
+        -- rewrite sl_upd_same by lia. rewrite upd_nth_length. exact Hcl.
+        -- rewrite sl_upd_other by lia. apply Islen; lia.
+      * unfold ring_ok. split; [lia|]. split.
+        -- rewrite sl_upd_same by lia. apply firstn_upd_S; [lia | exact Hf].
+        -- intros Hd. rewrite sl_upd_other by lia. auto.
+      * intros i Hi. destruct (Z.eq_dec i cur) as [->|Hne].
+        -- rewrite sl_upd_same by lia. rewrite upd_nth_length. exact Hcl.
+        -- rewrite sl_upd_other by lia. apply Islen; lia.
+      * unfold ring_ok. split.
+        -- rewrite sl_upd_same by lia. assert (E : npix = S p) by lia. rewrite E.
+           apply upd_last; [lia | exact Hf].
+        -- intros Hd. rewrite sl_upd_other by lia. auto.
+    + (* LWantLock *)
+      destruct lock as [o|]; [discriminate|].
+      injection Hst as <-; inv_split; try assumption; try reflexivity.
+      * revert Ilock; unfold lock_ok; cbn [lholds rholds]; tauto.
+      * exact (proj1 Iring).
+    + (* LAdvance *)
+      injection Hst as <-; inv_split; try assumption; try reflexivity.
+      * apply next_range; exact Icur.
+      * unfold ring_ok. rewrite pz_next by exact Icur. exact Iring.
+      * destruct rpc; try exact Ireq; exfalso; lock_tac Ilock lock.
+    + (* LUnlock *)
+      injection Hst as <-; inv_split; try assumption; try reflexivity;
+        try (lock_tac Ilock lock).
+      * lia.
+      * unfold ring_ok. split; [lia|]. split; [reflexivity|]. intros _. exact Iring.
+      * destruct rpc; try exact Ireq; try (exfalso; lock_tac Ilock lock).
+        unfold req_ok in *. lia.
+  - (* the requester moves *)
+    destruct rpc as [|a|a idx p acc|a acc|a b r].
+    + (* RIdle *)
+      injection Hst as <-; inv_split; try assumption; try reflexivity;
+        try (lock_tac Ilock lock).
+      * unfold req_ok. lia.
+    + (* RWantLock *)
+      destruct lock as [o|]; [discriminate|].
+      injection Hst as <-; inv_split; try assumption; try reflexivity.
+      * revert Ilock; unfold lock_ok; cbn [lholds rholds]; tauto.
+      * unfold req_ok. split; [reflexivity|]. split; [exact Ireq|]. split; [lia|].
+        intros _; reflexivity.
+    + (* RCopy *)
+      destruct Ireq as (Hidx & Ha & Hp & Hacc).
+      assert (Hslot : 1 <= a -> nth (Z.to_nat idx) slots [] = repeat done npix).
+      { intros H1. subst idx. change (sl slots (pz cur size) = repeat done npix).
+        destruct lpc as [q| | |].
+        - destruct Iring as (_ & _ & Hr). apply Hr; lia.
+        - destruct Iring as (_ & Hr). apply Hr; lia.
+        - exfalso; lock_tac Ilock lock.
+        - exfalso; lock_tac Ilock lock. }
+      destruct (Nat.ltb_spec (S p) npix) as [Hlt|Hge];
+        injection Hst as <-; inv_split; try assumption; try reflexivity;
+        try (lock_tac Ilock lock).
+      * unfold req_ok. split; [exact Hidx|]. split; [exact Ha|]. split; [lia|].
+        intros H1. rewrite Hacc, Hslot by exact H1. rewrite nth_repeat_lt by lia.
+        apply repeat_snoc.
+      * unfold req_ok. split; [exact Ha|].
+        intros H1. rewrite Hacc, Hslot by exact H1. rewrite nth_repeat_lt by lia.
+        rewrite repeat_snoc. f_equal. lia.
+    + (* RUnlock *)
+      destruct Ireq as (Ha & Hacc).
+      injection Hst as <-; inv_split; try assumption; try reflexivity;
+        try (lock_tac Ilock lock).
+      * unfold req_ok. split; [exact Ha|]. intros H1. exists done. split; [lia|]. auto.
+    + discriminate.
+Qed.
+
+Lemma crun_inv size npix : 2 <= size -> (1 <= npix)%nat ->
+  forall sched s, Inv size npix s -> Inv size npix (crun s sched).
+Proof.
+  intros Hsz Hnp. induction sched as [|t r IH]; intros s HI; cbn [crun].
+  - exact HI.
+  - destruct (cstep s t) as [s1|] eqn:E.
+    + apply IH. eapply inv_step; eauto.
+    + apply IH. exact HI.
+Qed.
+
 (* For every interleaving (every schedule), every ring capacity >= 2 and every frame size, a
    snapshot requested after at least one frame has been processed returns, pixel for pixel,
    ONE whole frame j - no mixture - with
@@ -13,25 +284,102 @@ Theorem whole_frame : forall size npix sched a b r,
     cs_rpc (crun (cs_init size npix) sched) = RDone a b r ->
     1 <= a ->
     exists j, a <= j <= b /\ r = repeat j npix.
-Admitted.
+Proof.
+  intros size npix sched a b r Hsz Hnp Hr Ha.
+  pose proof (crun_inv size npix Hsz Hnp sched _ (inv_init size npix Hsz Hnp)) as HI.
+  destruct HI as (_ & _ & _ & _ & _ & _ & _ & _ & _ & Ireq).
+  rewrite Hr in Ireq. unfold req_ok in Ireq. apply Ireq. exact Ha.
+Qed.
 
 (* A request never corrupts or stalls the pipeline: whatever the requester does, the frame
    loop's state is exactly the state it reaches alone after the same number of its own steps
    (the requester only ever delays it, by at most one copy: npix + 2 steps). *)
 Definition loop_view (s : cstate) := (cs_slots s, cs_cur s, cs_frame s, cs_done s, cs_lpc s).
 
+(* the lock as seen by the loop running alone: held exactly inside Move() *)
+Definition lock_alone (pc : loop_pc) : option tid :=
+  match pc with LAdvance | LUnlock => Some TLoop | _ => None end.
+
+Definition sim (s s' : cstate) : Prop :=
+  cs_size s = cs_size s' /\ cs_npix s = cs_npix s' /\ loop_view s = loop_view s' /\
+  cs_lock s' = lock_alone (cs_lpc s').
+
+Lemma sim_req s s1 s' : sim s s' -> cstep s TReq = Some s1 -> sim s1 s'.
+Proof.
+  unfold sim, loop_view. intros (H1 & H2 & H3 & H4) Hst.
+  destruct s as [sz np slots cur lock frame done lpc rpc].
+  unfold cstep in Hst. proj_in Hst. proj_in H1. proj_in H2. proj_in H3.
+  destruct rpc; try destruct lock; try discriminate; injection Hst as <-; proj; auto.
+Qed.
+
+Lemma sim_loop s s1 s' :
+  sim s s' -> cstep s TLoop = Some s1 -> exists s1', cstep s' TLoop = Some s1' /\ sim s1 s1'.
+Proof.
+  unfold sim, loop_view. intros (H1 & H2 & H3 & H4) Hst.
+  destruct s as [sz np slots cur lock frame done lpc rpc].
+  destruct s' as [sz' np' slots' cur' lock' frame' done' lpc' rpc'].
+  proj_in H1. proj_in H2. proj_in H3. proj_in H4.
+  inversion H3; subst; clear H3.
+  unfold cstep in *. proj_in Hst. unfold set_pixel, slot. proj.
+  destruct lpc' as [p| | |]; cbn [lock_alone] in *.
+  - injection Hst as <-. eexists; split; [reflexivity|]. proj.
+    repeat (split; [reflexivity|]). destruct (Nat.ltb (S p) np'); reflexivity.
+  - destruct lock; [discriminate|]. injection Hst as <-.
+    eexists; split; [reflexivity|]. proj. repeat (split; [reflexivity|]). reflexivity.
+  - injection Hst as <-. eexists; split; [reflexivity|]. proj.
+    repeat (split; [reflexivity|]). reflexivity.
+  - injection Hst as <-. eexists; split; [reflexivity|]. proj.
+    repeat (split; [reflexivity|]). reflexivity.
+Qed.
+
+Lemma sim_run : forall sched s s',
+    sim s s' -> loop_view (crun s sched) = loop_view (loop_only s' (loop_steps s sched)).
+Proof.
+  induction sched as [|t r IH]; intros s s' Hs; cbn [crun loop_steps].
+  - cbn [loop_only]. apply Hs.
+  - destruct (cstep s t) as [s1|] eqn:E.
+    + destruct t.
+      * destruct (sim_loop _ _ _ Hs E) as (s1' & E' & Hs'). cbn [loop_only]. rewrite E'.
+        apply IH; exact Hs'.
+      * apply IH. eapply sim_req; eauto.
+    + apply IH; exact Hs.
+Qed.
+
 Theorem loop_unaffected : forall size npix sched,
     1 <= size -> (1 <= npix)%nat ->
     let s := crun (cs_init size npix) sched in
     exists n, loop_view s = loop_view (loop_only (cs_init size npix) n).
-Admitted.
+Proof.
+  intros size npix sched Hsz Hnp s. subst s.
+  exists (loop_steps (cs_init size npix) sched). apply sim_run.
+  unfold sim. repeat (split; [reflexivity|]). reflexivity.
+Qed.
+
+Lemma req_copy_releases : forall n s a idx p acc,
+    cs_rpc s = RCopy a idx p acc -> (1 <= n)%nat -> (p + n = cs_npix s)%nat ->
+    cs_lock (crun s (repeat TReq (S n))) = None.
+Proof.
+  induction n as [|n IH]; intros s a idx p acc Hr Hn Hp; [lia|].
+  destruct s as [sz np slots cur lock frame done lpc rpc].
+  proj_in Hr. proj_in Hp. subst rpc.
+  change (repeat TReq (S (S n))) with (TReq :: repeat TReq (S n)).
+  cbn [crun]. unfold cstep at 1. proj.
+  destruct (Nat.ltb_spec (S p) np) as [Hlt|Hge].
+  - destruct n as [|n]; [lia|].
+    eapply IH; [proj; reflexivity | lia | proj; lia].
+  - destruct n as [|n]; [|lia].
+    reflexivity.
+Qed.
 
 (* the requester holds the ring mutex for exactly npix + 1 of its own steps: from any state in
    which it holds the lock, npix + 1 requester steps release it *)
 Theorem requester_releases : forall s a idx acc,
     cs_rpc s = RCopy a idx 0 acc -> cs_lock s = Some TReq -> (1 <= cs_npix s)%nat ->
     cs_lock (crun s (repeat TReq (S (cs_npix s)))) = None.
-Admitted.
+Proof.
+  intros s a idx acc Hr _ Hnp.
+  apply (req_copy_releases (cs_npix s) s a idx 0%nat acc Hr Hnp). reflexivity.
+Qed.
 
 (* KNOWN FINDINGS, as refutations of the unguarded statements.
    Capacity 1 (preview-secs = 0 with trigger-frames = 1): "previous" and "current" are the same
